@@ -28,6 +28,8 @@ __all__ = ['time_unit_conversion',
 # Imports
 #-----------------------------------------------------------------------------
 
+import copy
+
 import numpy as np
 
 # Our own
@@ -1174,7 +1176,7 @@ class TimeSeries(TimeSeriesBase):
         return TimeSeries(data=self.data.copy(),
                           time=self.time.copy(),
                           time_unit=self.time_unit,
-                          metadata=self.metadata.copy())
+                          metadata=copy.deepcopy(self.metadata))
 
     def __init__(self, data, t0=None, sampling_interval=None,
                  sampling_rate=None, duration=None, time=None, time_unit='s',
